@@ -3,6 +3,8 @@
 From Sakura.Model Require Import Base Cursor Length Expr.
 From Sakura.Gen Require Import ExprConsts.
 From Sakura.Spec Require Import ExprSpec.
+From Sakura.Gen Require Import Consts.
+From Sakura.Proofs Require Import NumeralP.
 From Coq Require Import Lia.
 Open Scope Z_scope.
 
@@ -163,15 +165,42 @@ Proof.
   replace ((65 <=? c) && (c <=? 70)) with false by lia. reflexivity.
 Qed.
 
+Lemma numeral_cap_is_code : numeral_cap = NUMERAL_MAX.
+Proof. reflexivity. Qed.
+
+Lemma value_in_horner base ds : forall acc, value_in base acc ds = horner base acc ds.
+Proof. induction ds as [|d ds IH]; intros acc; cbn [value_in horner]; [reflexivity|apply IH]. Qed.
+
+Lemma range_nonneg lo hi ds : 0 <= lo -> forallb (in_range lo hi) ds = true -> Forall (fun d => 0 <= d) ds.
+Proof.
+  intros Hlo H. rewrite forallb_forall in H. apply Forall_forall. intros x Hx. specialize (H x Hx).
+  unfold in_range in H. lia.
+Qed.
+
+(* capping each digit step = the value in the base, capped once *)
+Lemma sat_value base ds : 1 <= base -> Forall (fun d => 0 <= d) ds ->
+  horner_sat base 0 ds = Z.min (value_in base 0 ds) numeral_cap.
+Proof.
+  intros Hb Hd. rewrite horner_sat_min; [|assumption|assumption|pose proof numeral_max_pos; lia].
+  reflexivity.
+Qed.
+
+Lemma hex_nonneg (ds : list (Z * bool)) :
+  forallb (fun d => in_range 0 15 (fst d)) ds = true -> Forall (fun d => 0 <= d) (map fst ds).
+Proof.
+  intros H. rewrite forallb_forall in H. apply Forall_forall. intros x Hx. apply in_map_iff in Hx.
+  destruct Hx as (y & <- & Hy). specialize (H y Hy). unfold in_range in H. lia.
+Qed.
+
 Lemma take_dec_digits ds : forall acc r,
   forallb (in_range 0 9) ds = true -> nw r ->
-  take_dec acc (map (fun d => 48 + d) ds ++ r) = (value_in 10 acc ds, r).
+  take_dec acc (map (fun d => 48 + d) ds ++ r) = (horner_sat 10 acc ds, r).
 Proof.
   induction ds as [|d ds IH]; intros acc r Hd Hr.
-  - cbn [map app value_in]. destruct r as [|c r]; [reflexivity|].
+  - cbn [map app horner_sat]. destruct r as [|c r]; [reflexivity|].
     cbn [take_dec]. cbn [nw] in Hr. apply nw_facts in Hr. destruct Hr as (H & _). rewrite H. reflexivity.
   - cbn [forallb] in Hd. apply andb_prop in Hd. destruct Hd as [Hd Hds].
-    cbn [map app take_dec value_in]. unfold in_range in Hd.
+    cbn [map app take_dec horner_sat]. unfold in_range in Hd.
     replace (is_digit (48 + d)) with true by (unfold is_digit; lia).
     replace (acc * 10 + (48 + d - 48)) with (acc * 10 + d) by lia.
     apply IH; assumption.
@@ -180,13 +209,13 @@ Qed.
 (* the code's "octal" digits are 0..8 *)
 Lemma take_oct_digits ds : forall acc r,
   forallb (in_range 0 8) ds = true -> nw r ->
-  take_oct acc (map (fun d => 48 + d) ds ++ r) = (value_in 8 acc ds, r).
+  take_oct acc (map (fun d => 48 + d) ds ++ r) = (horner_sat 8 acc ds, r).
 Proof.
   induction ds as [|d ds IH]; intros acc r Hd Hr.
-  - cbn [map app value_in]. destruct r as [|c r]; [reflexivity|].
+  - cbn [map app horner_sat]. destruct r as [|c r]; [reflexivity|].
     cbn [take_oct]. cbn [nw] in Hr. apply nw_facts in Hr. destruct Hr as (_ & H & _). rewrite H. reflexivity.
   - cbn [forallb] in Hd. apply andb_prop in Hd. destruct Hd as [Hd Hds].
-    cbn [map app take_oct value_in]. unfold in_range in Hd.
+    cbn [map app take_oct horner_sat]. unfold in_range in Hd.
     replace (is_oct_digit (48 + d)) with true by (unfold is_oct_digit; lia).
     replace (acc * 8 + (48 + d - 48)) with (acc * 8 + d) by lia.
     apply IH; assumption.
@@ -207,13 +236,13 @@ Qed.
 
 Lemma take_hex_digits ds : forall acc r,
   forallb (fun d => in_range 0 15 (fst d)) ds = true -> nw r ->
-  take_hex acc (map hex_char ds ++ r) = (value_in 16 acc (map fst ds), r).
+  take_hex acc (map hex_char ds ++ r) = (horner_sat 16 acc (map fst ds), r).
 Proof.
   induction ds as [|d ds IH]; intros acc r Hd Hr.
-  - cbn [map app value_in]. destruct r as [|c r]; [reflexivity|].
+  - cbn [map app horner_sat]. destruct r as [|c r]; [reflexivity|].
     cbn [take_hex]. cbn [nw] in Hr. apply nw_facts in Hr. destruct Hr as (_ & _ & H & _). rewrite H. reflexivity.
   - cbn [forallb] in Hd. apply andb_prop in Hd. destruct Hd as [Hd Hds].
-    cbn [map app take_hex value_in]. rewrite hex_val_char by assumption.
+    cbn [map app take_hex horner_sat]. rewrite hex_val_char by assumption.
     apply IH; assumption.
 Qed.
 
@@ -273,7 +302,8 @@ Proof.
     rewrite Hx. replace (eq_char (cs ++ r) 36) with false by (rewrite E0; cbn [eq_char]; lia).
     cbn [orb]. rewrite Ho.
     replace (is_numeric (cs ++ r)) with true by (rewrite E0; cbn [is_numeric]; unfold is_digit; lia).
-    cbn [negb]. unfold cs. rewrite take_dec_digits by assumption. f_equal. lia.
+    cbn [negb]. unfold cs. rewrite take_dec_digits by assumption.
+    rewrite sat_value by first [lia | apply (range_nonneg 0 9); [lia|assumption]]. f_equal. unfold lit_value. lia.
   - (* hex *)
     destruct ds as [|d ds]; [discriminate|]. clear Hne. cbn [lit_value].
     pose proof Hd as Hd'. cbn [forallb] in Hd'. apply andb_prop in Hd'. destruct Hd' as [Hd1 _].
@@ -295,7 +325,8 @@ Proof.
             cbv beta iota zeta; cbn [tl]).
       rewrite Hx0. cbn [map app peek0]. rewrite Hhv.
       change (hex_char d :: map hex_char ds ++ r) with (map hex_char (d :: ds) ++ r).
-      rewrite take_hex_digits by assumption. cbv beta iota zeta. f_equal. cbn [map]. lia.
+      rewrite take_hex_digits by assumption. cbv beta iota zeta.
+      rewrite sat_value by first [lia | apply hex_nonneg; assumption]. f_equal. unfold lit_value. cbn [map]. lia.
     + (* 0x.. *)
       unfold get_int. unfold c_0, c_x, c_o, c_MINUS, c_DOLLAR. cbn [eq_char prefixb].
       replace (48 =? 45) with false by reflexivity. replace (48 =? 48) with true by reflexivity.
@@ -307,7 +338,8 @@ Proof.
       cbn [prefixb]. change (48 =? 48) with true. change (120 =? 120) with true.
       cbn [andb]. cbv beta iota zeta. cbn [skipn map app peek0]. rewrite Hhv.
       change (hex_char d :: map hex_char ds ++ r) with (map hex_char (d :: ds) ++ r).
-      rewrite take_hex_digits by assumption. cbv beta iota zeta. f_equal. cbn [map]. lia.
+      rewrite take_hex_digits by assumption. cbv beta iota zeta.
+      rewrite sat_value by first [lia | apply hex_nonneg; assumption]. f_equal. unfold lit_value. cbn [map]. lia.
   - (* octal *)
     destruct ds as [|d ds]; [discriminate|]. clear Hne. cbn [lit_text lit_value app].
     assert (Hd8 : forallb (in_range 0 8) (d :: ds) = true).
@@ -320,12 +352,13 @@ Proof.
     cbn [andb orb skipn map app peek0].
     replace (is_oct_digit (48 + d)) with true by (unfold is_oct_digit; lia). cbn [andb negb].
     change ((48 + d) :: map (fun d0 => 48 + d0) ds ++ r) with (map (fun d0 => 48 + d0) (d :: ds) ++ r).
-    rewrite take_oct_digits by assumption. cbv beta iota zeta. f_equal. lia.
+    rewrite take_oct_digits by assumption. cbv beta iota zeta.
+    rewrite sat_value by first [lia | apply (range_nonneg 0 8); [lia|assumption]]. f_equal. unfold lit_value. lia.
 Qed.
 
 (* what the code does with the digit 8 after "0o": it is accepted with the value 8 *)
 Lemma get_int_octal_8 ds r def : ds <> [] -> forallb (in_range 0 8) ds = true -> nw r ->
-  get_int def (48 :: 111 :: map (fun d => 48 + d) ds ++ r) = (value_in 8 0 ds, r).
+  get_int def (48 :: 111 :: map (fun d => 48 + d) ds ++ r) = (Z.min (value_in 8 0 ds) numeral_cap, r).
 Proof.
   intros Hne Hd Hr. destruct ds as [|d ds]; [congruence|].
   pose proof Hd as Hd'. cbn [forallb] in Hd'. apply andb_prop in Hd'. destruct Hd' as [Hd1 _]. unfold in_range in Hd1.
@@ -336,7 +369,8 @@ Proof.
   cbn [andb orb skipn map app peek0].
   replace (is_oct_digit (48 + d)) with true by (unfold is_oct_digit; lia). cbn [andb negb].
   change ((48 + d) :: map (fun d0 => 48 + d0) ds ++ r) with (map (fun d0 => 48 + d0) (d :: ds) ++ r).
-  rewrite take_oct_digits by assumption. cbv beta iota zeta. f_equal. lia.
+  rewrite take_oct_digits by assumption. cbv beta iota zeta.
+  rewrite sat_value by first [lia | apply (range_nonneg 0 8); [lia|assumption]]. f_equal. unfold lit_value. lia.
 Qed.
 
 (* ================================================================================================ *)
